@@ -23,6 +23,9 @@ ASSUMPTIONS = ["a name in use is not re-added (replacement is not claimed)", "va
                "|values| < 2^45 so that pandas keeps native dtypes"]
 LIVE = set()
 NAMES = [f"c{i}" for i in range(80)]
+# component names are column labels: any hashable works (the empty string, integers, tuples, frozensets - also ones whose members are
+# themselves names of other components)
+NAMES_X = ["c0", "c1", ("c0", "c1"), frozenset({"c0", "c1"}), 7, "", ("c0",), frozenset({"c1"})]
 
 
 def configure(live):
@@ -64,6 +67,8 @@ def value(src, p):
         return (n, n + 1, n + 2)
     if vt == "list2":
         return [n, -n]
+    if vt == "seq1":                   # one-element sequences (and nested ones): in a world whose other axes have extent 1 a flat list
+        return ([n], (n,), [[n]], [(f"k{n}",)])[(p[0] + p[1] + p[2]) % 4 if src.get("mult", 1) % 2 == 0 else int(src.get("off", 0)) % 4]      # of them has the outline of a world-shaped table
     if vt == "dict":                   # a record of attributes
         return {"kind": f"k{n}", "level": n, 0: n + 1}
     if vt == "set":
@@ -101,7 +106,10 @@ def same(got, exp):
 
 
 def run_case(case):
-    NNAMES = max(1, min(int(case.get("names", 4)), 80))         # size of the name pool (large cases: dozens of live columns)
+    NNAMES = max(1, min(int(case.get("names", 4)), 80))
+    names = NAMES
+    if case.get("xnames"):
+        names, NNAMES = NAMES_X, len(NAMES_X)         # size of the name pool (large cases: dozens of live columns)
     world, (w, h, d) = build(case)
     ew, eh, ed = max(w, 1), max(h, 1), max(d, 1)
     cells = [(x, y, z) for z in range(ed) for y in range(eh) for x in range(ew)]
@@ -116,8 +124,8 @@ def run_case(case):
 
     def verify(where):
         cols = list(world.cells.columns)
-        if cols[0] != "pos" or sorted(cols[1:]) != sorted(live):
-            raise Violation("columns", f"{where}: columns are {cols}, expected pos + {sorted(live)}")
+        if cols[0] != "pos" or sorted(cols[1:], key=repr) != sorted(live, key=repr):
+            raise Violation("columns", f"{where}: columns are {cols}, expected pos + {sorted(live, key=repr)}")
         if len(world.cells) != n:
             raise Violation("row-count", f"{where}: {len(world.cells)} rows, expected {n}")
         pos = [tuple(p) for p in world.cells["pos"]]
@@ -149,7 +157,7 @@ def run_case(case):
         maybe_complete(case, k, world.model, labels)
         where = f"after op {k} {_short(op)}"
         if op["op"] == "add":
-            name = NAMES[int(op["name"]) % NNAMES]
+            name = names[int(op["name"]) % NNAMES]
             overwrite = name in live
             if overwrite and not op.get("again"):
                 continue
@@ -159,7 +167,7 @@ def run_case(case):
                 src = dict(src, vtype="bigint")
             if kind == "lookup" and src.get("vtype") in ("tuple", "list2", "dict", "mixed", "nonebool"):
                 src = dict(src, numpy=False)        # composite table entries: a nested-list table (an array would grow a dimension)
-            elif src.get("vtype") in ("tuple", "list2", "cells", "mixed", "dict", "set", "bytes", "nonebool") and kind not in ("const", "callable", "list"):
+            elif src.get("vtype") in ("tuple", "list2", "seq1", "cells", "mixed", "dict", "set", "bytes", "nonebool") and kind not in ("const", "callable", "list"):
                 src = dict(src, vtype="int")        # sequence-valued / mixed cells only through generators and plain lists
             if kind == "list" and src.get("vtype") == "cells":
                 src = dict(src, vtype="tuple")
@@ -171,7 +179,7 @@ def run_case(case):
             dropped, frame_errors = [], []
             if kind == "callable":
                 seen = []
-                other = sorted(live)[int(src.get("other", 0)) % len(live)] if live and (src.get("derive") or src.get("drop_at") is not None) else None
+                other = sorted(live, key=repr)[int(src.get("other", 0)) % len(live)] if live and (src.get("derive") or src.get("drop_at") is not None) else None
                 drop_at = int(src["drop_at"]) % n if other is not None and src.get("drop_at") is not None else None
 
                 def gen(pos, frame, _src=src, _seen=seen, _other=other, _drop=drop_at):
@@ -274,7 +282,7 @@ def run_case(case):
                     keep[i] = -777 if not isinstance(keep[i], (str, tuple, list)) else "overwritten"
                 labels.add("aliasing-probe")
         elif op["op"] == "remove":
-            name = NAMES[int(op["name"]) % NNAMES]
+            name = names[int(op["name"]) % NNAMES]
             if name in live:
                 if len(live) >= 2:
                     removed_with_two = True
@@ -316,7 +324,7 @@ def strategy(tier):
     src = st.fixed_dictionaries({
         "kind": st.sampled_from(["callable", "callable", "list", "array", "const", "lookup", "lookup"]),
         "mult": st.sampled_from([1, 1, 3, -2, 7]), "off": st.integers(-50, 50),
-        "vtype": st.sampled_from(["int", "int", "float", "str", "tuple", "list2", "cells", "mixed", "dict", "set", "bytes", "nonebool", "bigint", "bigfloat", "hugepow"]),
+        "vtype": st.sampled_from(["int", "int", "float", "str", "tuple", "list2", "cells", "mixed", "dict", "set", "bytes", "nonebool", "bigint", "bigfloat", "hugepow", "seq1", "seq1"]),
         "lowdim": st.booleans(), "numpy": st.booleans(), "derive": st.sampled_from([False, False, True]), "functor": st.sampled_from(["function", "function", "object", "const_sub", "lookup_sub"]),
         "other": st.integers(0, 3), "drop_at": st.sampled_from([None, None, None, None, 0, 1, 2, 5, -1])})
     name = st.integers(0, 3)
@@ -348,4 +356,4 @@ def strategy(tier):
 
 
 def _small(shape, op):
-    return st.builds(lambda s, ops: dict(s, ops=ops), shape, wone_of(sized_lists(op, 1, 14), sized_lists(op, 5, 14)))
+    return st.builds(lambda s, ops, x: dict(s, ops=ops, xnames=True) if x else dict(s, ops=ops), shape, wone_of(sized_lists(op, 1, 14), sized_lists(op, 5, 14)), st.sampled_from([False, False, False, True]))
